@@ -68,6 +68,9 @@ func inputs(c Case, off time.Duration) []RP {
 	for i, s := range c.Seq {
 		t = t.Add(time.Duration(s.Dt) * time.Second)
 		p := RP{Name: "m", Tags: map[string]string{"h": "a", "p": fmt.Sprintf("p%d", i%2)}, Fields: map[string]any{"o": int64(i)}, T: t, Dims: []string{"h"}}
+		if i%2 == 1 {
+			p.Tags["q"] = "z" // the points of one batch do not all carry the same tag keys
+		}
 		switch s.V {
 		case "_":
 		case "s":
